@@ -109,6 +109,23 @@ CHECKS = {
         note="Trusted: Coq kernel; translator (policies / write calls per command file); git subprocesses spawned by "
              "inspection commands are read-only by git's contract.",
         technique="Coq proof + regenerated command-table obligations + snapshot-equality enumeration"),
+    "C17": dict(category="proof", design_ref="DESIGN.md section 4/C17",
+        text="Theorems about the executable model of the three ref namespaces and the config sections keyed by "
+             "branch name (Model/Branch.v: deinitialize, ensure_patch_refs, clone, rename, delete, cleanup, protect): "
+             "deinitialize removes exactly the named branch's stack refs and stgit config; clone/rename give the new "
+             "name the SAME state commit (all three lists, every patch commit, the log) and exactly its patch refs and "
+             "leave nothing under the old name; refused sub-commands change nothing; unrelated branches (shared "
+             "prefixes, dots, slashes) are never touched; protected branches refuse; transactions with "
+             "use_index_and_worktree(false) never change index or work tree. Source ties: every --branch-capable "
+             "command runs its transactions without index/work tree once --branch is present; is_protected precedes "
+             "the first write in delete, cleanup, rebase, pull, repair; call order in clone/rename (fixes F30, F31, "
+             "F33). The '.stgit' twin-name hazard is proved present in the model (known finding F32).",
+        note="Trusted: Coq kernel; translator (call order, builder options, branch_arg per command file); git's own "
+             "behaviour (branch --move/--copy refusals, config section rename/copy, ref deletion) is modelled, not "
+             "verified; extraction of Model/Branch.v (ExtrOcamlBasic) and ocaml/bdriver.ml; the work-tree side of "
+             "clone/delete (git checkout) is judged by the direct oracle only.",
+        technique="Coq proof + regenerated command-table obligations + extracted-model differential testing of "
+                  "stg branch sub-commands + whole-repository before/after oracles"),
     "C19": dict(category="proof", design_ref="DESIGN.md section 4/C19", note=PROTO_NOTE, technique=PROTO_TECH,
         text="Theorems: one SIGINT before publication leaves the refs unchanged; inside the critical section the "
              "publication completes (refs, index, work tree of the completed command) with status 130; a roll-back "
